@@ -14,7 +14,7 @@ func init() {
 		ID: "C20",
 		Explain: "Static structural necessary conditions of 'storage stays bounded under churn': " +
 			"(supersede-becomes-garbage) every superseding write retires the old version — Table.Put/PutRaw call Table.Delete of the same key before overwriting the index entry, KVStore.Put/PutRaw retire the key from every older table after the insert, and Table.Delete moves the same n bytes from inuse to garbage (shared with C11); " +
-			"(compaction-shape) Compaction evicts only non-writable tables whose garbage is at least the threshold share of their allocation (comparison truth table {skip, evict, evict}), reports 'not done' after each evicted table, a drained table is unregistered and Reset, and makeTable reuses a recycled table before allocating a new one; " +
+			"(compaction-shape) Compaction evicts only non-writable tables whose garbage is at least the threshold share of the bytes written to them, not of their capacity (comparison truth table {skip, evict, evict}), reports 'not done' after each evicted table, a drained table is unregistered and Reset, and makeTable reuses a recycled table before allocating a new one; " +
 			"(both-kinds-compacted) the periodic worker compacts the primary and the backup partition of every partition id below PartitionCount; " +
 			"(size-boundary-agreement) every entry accepted by the store fits an empty table (otherwise Put allocates tables without bound). " +
 			"NOT decided: the constant factor of the bound and progress over time (quantify over workloads).",
@@ -28,40 +28,54 @@ func init() {
 			kvScanIndexRegistration(r)
 			bothKindsCompacted(r)
 			kvSizeBoundaryAgreement(r)
+			semaphoreReleased(r, "semaphore-released")
 		},
 	})
 }
 
 func compactionShape(r *core.Run) {
 	p := r.P
-	// (1) threshold boundary in isCompactionOK: true iff garbage >= allocated*ratio
+	// (1) threshold boundary in isCompactionOK: a table qualifies iff its garbage is at least
+	// the threshold share of the bytes WRITTEN to it (inuse + garbage). Only tables that no
+	// longer accept writes are compacted, and such a table may have been closed long before
+	// it was full: measured against the capacity (Allocated), a sparsely filled table never
+	// qualifies even when everything in it is dead, and storage grows without bound (D30).
 	if fn := r.Need("compaction-shape", kvPkg+".(*KVStore).isCompactionOK"); fn != nil {
 		f := fn.SSA
 		ok := false
-		why := "no comparison of the table's garbage with a share of its allocation"
-		for _, ret := range core.Returns(f) {
-			v := core.ResultValue(ret, 0)
-			bin, isBin := v.(*ssa.BinOp)
+		why := "no comparison of the table's garbage with a share of the bytes written to it"
+		usesCapacity := false
+		core.Instrs(f, func(in ssa.Instruction) {
+			bin, isBin := in.(*ssa.BinOp)
 			if !isBin || !core.IsCompare(bin.Op) {
-				continue
+				return
+			}
+			if mentionsField(bin.X, "Allocated") || mentionsField(bin.Y, "Allocated") {
+				usesCapacity = true
 			}
 			g, a := bin.X, bin.Y
 			op := bin.Op
-			if !mentionsField(g, "Garbage") {
+			if mentionsField(g, "Inuse") || !mentionsField(g, "Garbage") {
 				g, a = a, g
 				op = flip(op)
 			}
-			if !mentionsField(g, "Garbage") || !mentionsField(a, "Allocated") {
-				continue
+			if !mentionsField(g, "Garbage") || mentionsField(g, "Inuse") || !mentionsField(a, "Garbage") || !mentionsField(a, "Inuse") {
+				return
 			}
-			// garbage op allocated*ratio: compaction iff garbage >= share
 			tbl := [3]bool{core.CmpHolds(op, -1), core.CmpHolds(op, 0), core.CmpHolds(op, 1)}
-			if tbl == [3]bool{false, true, true} {
-				ok = true
-				why = "compaction iff garbage >= allocated*ratio ({skip, evict, evict})"
-			} else {
+			if tbl != [3]bool{false, true, true} {
 				why = fmt.Sprintf("garbage{<,==,>}share gives %v; required {false,true,true}: tables at the threshold are never compacted or tables below it are", tbl)
+				return
 			}
+			// the function says yes only when this comparison holds
+			if res, decided := core.BoolResult(f, bin.Block(), 0, map[ssa.Value]bool{bin: false}); decided && !res {
+				ok = true
+				why = "compaction iff garbage >= (inuse+garbage)*ratio ({skip, evict, evict}), measured against what was written to the table"
+			}
+		})
+		if usesCapacity {
+			ok = false
+			why = "the criterion measures the garbage against the table's capacity (Allocated): a table closed while mostly empty never qualifies, even with nothing but garbage in it, and is never reclaimed"
 		}
 		r.Check(ok, "compaction-shape", fn.Name+" threshold", site(r, f.Pos()), why, why)
 	}
